@@ -322,7 +322,10 @@ func (t *Task) BuildTaskCommand(role parentRole) (err error) {
 				return fmt.Errorf("cannot resolve templates for task defaults: %w", err)
 			}
 
-			varStack, err = gera.MakeMapWithMap(varStack).WrappedAndFlattened(gera.MakeMapWithMap(localDefaults))
+			// Keep the workflow-level stack: the final stack is built from it below, so that
+			// the task template's vars rank above its defaults (as in BuildPropertyMap).
+			workflowStack := varStack
+			varStack, err = gera.MakeMapWithMap(workflowStack).WrappedAndFlattened(gera.MakeMapWithMap(localDefaults))
 			if err != nil {
 				log.WithError(err).
 					WithField("partition", role.GetEnvironmentId().String()).
@@ -346,9 +349,11 @@ func (t *Task) BuildTaskCommand(role parentRole) (err error) {
 				return fmt.Errorf("cannot resolve templates for task vars: %w", err)
 			}
 
-			// We wrap the parent varStack around the task's already processed Defaults,
-			// ensuring that any taskclass Defaults are overridden by anything else.
-			varStack, err = gera.MakeMapWithMap(varStack).WrappedAndFlattened(gera.MakeMapWithMap(localVars))
+			// We wrap the parent varStack around the task's already processed Vars, themselves
+			// wrapped around the processed Defaults: workflow values override taskclass Vars,
+			// which override taskclass Defaults.
+			varStack, err = gera.MakeMapWithMap(workflowStack).WrappedAndFlattened(
+				gera.MakeMapWithMap(localVars).Wrap(gera.MakeMapWithMap(localDefaults)))
 			if err != nil {
 				log.WithError(err).
 					WithField("partition", role.GetEnvironmentId().String()).
